@@ -10,7 +10,7 @@ from vlib import renv
 
 PROPERTY = "C14"
 RULE = ("enumerated upgrade histories {USR2 then TERM old | QUIT old | TERM new | QUIT new | INT old | INT new | second USR2 while pending | "
-        "USR2, TERM old, USR2 on the promoted master, TERM first-new | USR2, TERM new, USR2 again | daemon mode: USR2, WINCH old, HUP old, TERM new | systemd socket activation (LISTEN_FDS): USR2, TERM old} x bind {tcp, unix} x worker class "
+        "USR2 then TERM/QUIT old at once, before the new master has started | USR2, TERM old, USR2 on the promoted master, TERM first-new | USR2, TERM new, USR2 again | daemon mode: USR2, WINCH old, HUP old, TERM new | systemd socket activation (LISTEN_FDS): USR2, TERM old} x bind {tcp, unix} x worker class "
         "{sync, gthread} with seeded sub-second jitter, on two (or three) real masters started from the working tree under a "
         "connect-loop client. Oracle: no connect is ever refused; after USR2 the configured pid file names the old master and '<pidfile>.2' "
         "the new one; once the old master is gone the configured name holds the new pid within 3 s and '.2' is absent; if the new one goes "
@@ -25,7 +25,7 @@ ASSUMPTIONS = [
 BUDGET = {"quick": (16, 0), "thorough": (16, 0)}
 
 HISTORIES = ["term-old", "quit-old", "term-new", "quit-new", "int-old", "int-new", "usr2-twice", "upgrade-twice", "rollback-then-upgrade",
-             "daemon-rollback", "systemd-term-old"]
+             "daemon-rollback", "systemd-term-old", "term-old-at-once", "quit-old-at-once"]
 
 
 def extra_cases(tier, seed, shard, nshards):
@@ -88,8 +88,12 @@ def wait_for(cond, limit):
 def run_case(case):
     h, bind, kind = case["history"], case["bind"], case["kind"]
     classes = ["history:" + h, "bind:" + bind, "kind:" + kind]
+    at_once = h.endswith("-at-once")
+    # "-at-once": the old master is stopped right after USR2, before the re-executed one has started up (a pre_exec hook that takes
+    # a moment makes the order certain): the new master finds its parent already gone
     srv = renv.Server(kind=kind, workers=2, bind=bind, graceful=3, timeout=30, threads=2 if kind == "gthread" else None,
-                      daemon=(h == "daemon-rollback"), systemd=h.startswith("systemd"))
+                      daemon=(h == "daemon-rollback"), systemd=h.startswith("systemd"),
+                      conf_lines=["import time", "def pre_exec(server):", "    time.sleep(0.7)"] if at_once else ())
     vio = []
 
     def V(clause, sig, observed=None, expected=None):
@@ -144,7 +148,23 @@ def run_case(case):
         load = Load(srv)
         load.start()
         time.sleep(0.2)
-        new = upgrade(old, "first")
+        if at_once:
+            os.kill(old, signal.SIGUSR2)
+            time.sleep(min(case.get("jitter", 0.1), 0.3))
+            os.kill(old, signal.SIGTERM if h.startswith("term") else signal.SIGQUIT)
+            srv.wait_exit(10)
+            if not wait_for(lambda: not renv.alive(old), 10):
+                V("old-exits", "old-master-did-not-exit", None, "exit")
+            new = wait_for(lambda: (lambda p: p if p and p != old and renv.alive(p) and renv.children(p) else None)(read_pid(pf)), 15)
+            if not new:
+                V("new-master-starts", "no-master-under-configured-pidfile-after-usr2-then-stop:" + h,
+                  {"pidfile": read_pid(pf), "pidfile2": read_pid(pf2), "masters": masters()}, "the re-executed master, promoted")
+            else:
+                expect_promoted(new, old, h)
+                expect_serving(h)
+            new = None
+        else:
+            new = upgrade(old, "first")
         if new:
             time.sleep(case.get("jitter", 0.1))
             sig = {"term": signal.SIGTERM, "quit": signal.SIGQUIT, "int": signal.SIGINT}
